@@ -30,7 +30,8 @@ enum class bson_errc
     expected_bson_document,
     invalid_regex_string,
     size_mismatch,
-    unknown_type
+    unknown_type,
+    key_contains_null
 };
 
 class bson_error_category_impl
@@ -59,6 +60,8 @@ public:
                 return "Request for the length of a binary returned a negative result";
             case bson_errc::unknown_type:
                 return "Unknown type in input";
+            case bson_errc::key_contains_null:
+                return "Key contains a null character, which a BSON element name cannot represent";
             case bson_errc::number_too_large:
                 return "Number too large";
             case bson_errc::invalid_decimal128_string:
